@@ -78,7 +78,9 @@ def gen_mutants(rel, text, rules):
                                                       "auto ", "auto&", "auto*", "template", "typename", "class", "struct", "}", "case", "default")) \
                and ("(" in s or "=" in s or "++" in s or "--" in s) and s.count(";") == 1 and not re.match(r"^[A-Za-z_:<>,\s\*&]+\s+[A-Za-z_]\w*(\s*=.*|\s*\{.*\}|\(.*\))?;$", s):
                 # complete one-line statement (balanced parentheses, not a declaration)
-                if s.count("(") == s.count(")") and (i == 0 or strip_comment(lines[i - 1]).rstrip().endswith((";", "{", "}", ":")) or not strip_comment(lines[i - 1]).strip()):
+                decl = re.match(r"^(inline|void|int|bool|explicit|virtual|constexpr|unsigned|size_t|uint\d+_t)\b|^~", s) or \
+                       re.search(r"(= default;|= delete;| noexcept;| const;| override;| const noexcept;)$", s)
+                if not decl and s.count("(") == s.count(")") and (i == 0 or strip_comment(lines[i - 1]).rstrip().endswith((";", "{", "}", ":")) or not strip_comment(lines[i - 1]).strip()):
                     out.append(("del", i, re.match(r"\s*", body).group(0) + ";"))
     res = []
     for rule, i, new in out:
